@@ -76,10 +76,12 @@ def specVerdict (cfg : Cfg) (method path : Str) (encs : List Enc) (df : Str) (im
         else if impl != renderResp (serve (restrict cfg) method path encs df) then "FAIL:outside-root-influence"
         else "ok"
       else
-        -- nothing that could be served exists, the name is acceptable: must be 404
-        let allMissing := cands.all fun n => atRoot cfg n == Res.notExist
-        let namesOk := cands.all fun n => (dirOpenRel n).isSome
-        if allMissing && namesOk && r.status != 404 then "FAIL:missing-not-404"
+        -- the property's "missing files are answered 404": nothing servable exists => 404
+        let servable := cands.any fun n => match atRoot cfg n with | Res.file _ => (dirOpenRel n).isSome | _ => false
+        if !servable && r.status != 404 then
+          (if cands.any (fun n => (dirOpenRel n).isNone || atRoot cfg n == Res.tooLong) then "FAIL:bad-name-not-404"
+           else if cands.any (fun n => atRoot cfg n == Res.dir) then "FAIL:directory-not-404"
+           else "FAIL:missing-not-404")
         else if r.status == 404 && encs == [] && (match atRoot cfg path with | Res.file _ => (dirOpenRel path).isSome | _ => false) then
           "FAIL:existing-not-served"
         else if r.body != [] || r.clen != none then "FAIL:error-with-body"
